@@ -22,6 +22,7 @@ TD="$ROOT/.cache/target-fuzz"
 BIN="$TD/x86_64-unknown-linux-gnu/release"
 [ "$SEED" = "0" ] && LSEED=1 || LSEED="$SEED"   # libFuzzer: 0 means random
 # campaigns (target x {seeded, empty}) run in parallel; slower targets get proportionally fewer runs
+maxlen() { case "$1" in template_fn) echo 40 ;; *) echo 256 ;; esac; }
 divisor() { case "$1" in argv_bytes) echo 10 ;; zerv_ron_stdin) echo 8 ;; template_fn) echo 4 ;; render_any) echo 2 ;; *) echo 1 ;; esac; }
 run_one() {
   t="$1"; mode="$2"
@@ -29,7 +30,7 @@ run_one() {
   if [ "$mode" = seeded ] && [ -d "$ROOT/harness/fuzz/seeds/$t" ]; then cp "$ROOT/harness/fuzz/seeds/$t"/* "$work/corpus/" 2>/dev/null; fi
   dict=""; [ -f "$ROOT/harness/fuzz/dict/$t.dict" ] && dict="-dict=$ROOT/harness/fuzz/dict/$t.dict"
   runs=$((RUNS / $(divisor "$t")))
-  ( cd / && "$BIN/$t" "$work/corpus" -runs="$runs" -seed="$LSEED" -max_len=256 -len_control=0 -timeout=20 -rss_limit_mb=4096 \
+  ( cd / && "$BIN/$t" "$work/corpus" -runs="$runs" -seed="$LSEED" -max_len="$(maxlen "$t")" -len_control=0 -timeout=60 -rss_limit_mb=4096 \
       -artifact_prefix="$work/artifacts/" -print_final_stats=1 $dict >"$work/log" 2>&1 </dev/null )
   echo $? > "$work/status"
 }
@@ -60,8 +61,26 @@ PY
         echo "VIOLATION property=$ID replay=$keep.json"
         echo "  sub-check=fuzz:$t: $msg"
         rc=1
+      elif ls "$work/artifacts"/timeout-* >/dev/null 2>&1; then
+        # a slow unit is not a verdict; only an input that does not finish at all is (C13: zerv terminates)
+        tart=$(ls "$work/artifacts"/timeout-* | head -1)
+        t0=$(date +%s)
+        ( cd / && timeout 900 "$BIN/$t" "$tart" >/dev/null 2>&1 </dev/null ); tst=$?
+        t1=$(date +%s)
+        if [ $tst -eq 124 ]; then
+          mkdir -p "$ROOT/replays/$ID"; keep="$ROOT/replays/$ID/fuzz-$t-hang-$(sha1sum "$tart" | cut -c1-12)"; cp "$tart" "$keep.bin"
+          python3 - "$ID" "$t" "$keep" <<'PY'
+import json, sys
+pid, t, keep = sys.argv[1:4]
+data = open(keep + ".bin", "rb").read()
+json.dump({"property": pid, "sub_check": "fuzz:" + t, "artifact": keep + ".bin", "input_lossy": data.decode("utf-8", "replace"), "input_hex": data.hex(), "message": "input does not finish within 900 s"}, open(keep + ".json", "w"), indent=1, ensure_ascii=False)
+PY
+          echo "VIOLATION property=$ID replay=$keep.json"; echo "  sub-check=fuzz:$t: input does not finish within 900 s (hang)"; rc=1
+        else
+          echo "NOTE: fuzz target $t ($mode) met a slow unit: $((t1 - t0)) s for one input (finishes; not a verdict): $tart"
+        fi
       else
-        echo "INFRA: fuzz target $t ($mode) stopped abnormally (timeout/oom/other, exit $st) - inconclusive; see $work/log"
+        echo "INFRA: fuzz target $t ($mode) stopped abnormally (oom/other, exit $st) - inconclusive; see $work/log"
         [ $rc -eq 0 ] && rc=2
       fi
     fi
